@@ -121,7 +121,10 @@ Record op := mkOp {
   ocohort : N;
   onotblocked : bool;      (* SnapSetup.RevertStatus = NotBlocked *)
   ohookcfg : N;            (* value the configure hook writes into the snap's configuration, 0 = it writes nothing *)
-  onow : N                 (* timeNow() during the change *)
+  onow : N;                (* timeNow() during the change *)
+  ofromstore : bool        (* the snap comes from the store (download + validate); false = a local file (SnapSetup.SnapPath
+                              set: InstallPath, snap try): prepare-snap, no assertion check.  Only matters for a revision
+                              that is not kept yet; doInstall's garbage collection must not depend on it *)
 }.
 
 Definition is_revert (o : op) : bool := match okind o with ORevert => true | _ => false end.
@@ -324,7 +327,7 @@ Definition install_tasks (o : op) (s : st) (retain : Z) (inuse : N -> bool) : li
   let revert := is_revert o in
   let refresh_hooks := inst && negb revert in
   map (fun k => (k, r))
-    ([KPrereq] ++ (if islocal then [KPrepare] else [KDownload; KValidate; KMount])
+    ([KPrereq] ++ (if islocal then [KPrepare] else if ofromstore o then [KDownload; KValidate; KMount] else [KPrepare; KMount])
      ++ (if refresh_hooks then [KPreRefresh] else [])
      ++ (if inst then [KStop; KRemoveAliases; KUnlinkCurrent] else [])
      ++ (if revert then [] else [KCopyData])
